@@ -145,6 +145,9 @@ fn cmd_check(args: &[String]) -> i32 {
     let mut evaluations = 0u64;
     let mut sim_ns = 0u128;
     let mut total_ops = 0u64;
+    let mut slowest: Vec<(u64, u64, u64)> = results.iter().map(|r| (r.wall_ms, r.index, r.seed)).collect();
+    slowest.sort_unstable_by(|a, b| b.cmp(a));
+    slowest.truncate(5);
     for r in &results {
         evaluations += r.evaluations.max(1);
         total_ops += r.n_ops;
@@ -183,9 +186,16 @@ fn cmd_check(args: &[String]) -> i32 {
     let mut fixed_returned = 0;
     let mut minimise_budget = 3;
     for v in &violations {
+        // a signature ending in '*' matches as a prefix (same call site, message tail varies)
+        let sig_matches = |sig: &str, class: &str| -> bool {
+            match sig.strip_suffix('*') {
+                Some(p) => class.starts_with(p),
+                None => sig == class,
+            }
+        };
         let k = known
             .iter()
-            .find(|k| k.property == prop.id && k.signature == v.class && k.status == "open");
+            .find(|k| k.property == prop.id && sig_matches(&k.signature, &v.class) && k.status == "open");
         if let Some(k) = k {
             let e = known_hits
                 .entry(k.signature.clone())
@@ -195,7 +205,7 @@ fn cmd_check(args: &[String]) -> i32 {
         }
         if known
             .iter()
-            .any(|k| k.property == prop.id && k.signature == v.class && k.status == "fixed")
+            .any(|k| k.property == prop.id && sig_matches(&k.signature, &v.class) && k.status == "fixed")
         {
             fixed_returned += 1;
         }
@@ -272,6 +282,7 @@ fn cmd_check(args: &[String]) -> i32 {
             "cross_property_observations": observations,
             "known_findings_hit": known_hits.iter().map(|(k, (n, _))| (k.clone(), *n)).collect::<BTreeMap<_, _>>(),
             "harness_errors": harness_errors,
+            "slowest_runs_ms_index_seed": slowest,
             "components": {
                 "real": ["lsm-tree (all of it, feature verif)", "sfa", "tempfile", "quick_cache", "crossbeam-skiplist", "std::fs", "std::sync", "kernel tmpfs as byte store"],
                 "simulated": ["durability / crash outcomes / I/O errors / stored-byte corruption (simfs at the libc boundary)", "thread scheduling (baton scheduler, concurrent engine only)", "wall clock", "the caller: seqno allocation, snapshot tracker, flush/compaction workers, reopen"]
